@@ -60,6 +60,10 @@ func (x textM) MarshalText() ([]byte, error) {
 	return []byte(x.out), nil
 }
 
+type panicM struct{}
+
+func (panicM) MarshalJSON() ([]byte, error) { panic("marshaler panics") }
+
 type tagged struct {
 	A interface{} `json:"a<b"`
 	B interface{} `json:"</script>,omitempty"`
@@ -132,6 +136,8 @@ func build(n Node) interface{} {
 		return json.RawMessage(n.S)
 	case "number":
 		return json.Number(n.S)
+	case "panicm":
+		return panicM{}
 	case "chan":
 		return make(chan int)
 	case "func":
@@ -165,7 +171,7 @@ func genNode(t *rapid.T, depth int) Node {
 	case 5:
 		return Node{Kind: "bool", B: rapid.Bool().Draw(t, "b")}
 	case 6:
-		return Node{Kind: rapid.SampledFrom([]string{"null", "null", "nan", "inf", "chan", "func", "complex"}).Draw(t, "odd")}
+		return Node{Kind: rapid.SampledFrom([]string{"null", "null", "nan", "inf", "chan", "func", "complex", "panicm"}).Draw(t, "odd")}
 	case 7:
 		if rapid.Bool().Draw(t, "rawdict") {
 			return Node{Kind: "raw", S: evid.BStr(rapid.SampledFrom(rawTexts).Draw(t, "raw"))}
@@ -249,7 +255,44 @@ func decode(b []byte) (interface{}, error) {
 	return v, nil
 }
 
+// check judges one call and then a canary call: whatever the first call did (error, panic of a caller-supplied
+// marshaler), the next call must still be exact.
 func check(c Case) evid.Outcome {
+	o := func() (o evid.Outcome) {
+		defer func() {
+			if r := recover(); r != nil {
+				if hasPanicM(c.Data) {
+					o = evid.Outcome{NonTrivial: true, Labels: []string{"caller-marshaler-panicked"}}
+					return
+				}
+				panic(r)
+			}
+		}()
+		return check1(c)
+	}()
+	if o.Violation != "" {
+		return o
+	}
+	got, err := safehtml.VerifScriptFromDataAndConstant("canary", map[string]interface{}{"k": "<v>"}, "done();")
+	if want := "var canary = {\"k\":\"\\u003cv\\u003e\"};\ndone();"; err != nil || got.String() != want {
+		return evid.Viol("after the call with name %q data %+v the next call returned (%q, %v), want %q", c.Name, c.Data, got.String(), err, want)
+	}
+	return o
+}
+
+func hasPanicM(n Node) bool {
+	if n.Kind == "panicm" {
+		return true
+	}
+	for _, k := range n.Kids {
+		if hasPanicM(k) {
+			return true
+		}
+	}
+	return false
+}
+
+func check1(c Case) evid.Outcome {
 	name, script := string(c.Name), string(c.Script)
 	data := build(c.Data)
 	got, err := safehtml.VerifScriptFromDataAndConstant(name, data, script)
@@ -317,7 +360,7 @@ func gen(t *rapid.T) Case {
 	} else {
 		c.Name = evid.BStr(strs.Mutate(t, rapid.SampledFrom(names).Draw(t, "name"), 2, names))
 	}
-	c.Script = evid.BStr(rapid.SampledFrom([]string{"", "use(myVar);", "alert(1)", "// x\n", "</script>", "%s %d"}).Draw(t, "script"))
+	c.Script = evid.BStr(rapid.SampledFrom([]string{"", "use(myVar);", "alert(1)", "// x\n", "</script>", "%s %d", "i%2 == 0", "%[1]s", "100%", "%v%!"}).Draw(t, "script"))
 	return c
 }
 
